@@ -7,6 +7,8 @@
 //   ni/no   numeric literal lexemes in source order (arrays of byte codes)
 //   pvi/pvo least ECMAScript edition in {5,2015..2022} at which acorn accepts the text (9999: none)
 //   tierr/toerr  acorn (latest edition) rejects the text
+//   sk/sk0  (only when out0 is present: output under Precision = 0) token skeletons of out and out0: every token as
+//           "label:text", numeric literals (not BigInt) replaced by "#"; no0: the numeric literal lexemes of out0
 // Parser: the acorn bundled with Node (independent of the code under test).  Nothing is judged here.
 'use strict';
 const fs = require('fs');
@@ -22,6 +24,18 @@ function minEdition(src) {
 }
 
 function bytes(s) { return Array.from(Buffer.from(s, 'utf8')); }
+
+function skeleton(src) {
+  const sk = [], nums = [];
+  try {
+    for (const t of acorn.tokenizer(src, {ecmaVersion: 'latest', sourceType: 'script'})) {
+      const raw = src.slice(t.start, t.end);
+      if (t.type.label === 'num' && !/n$/.test(raw)) { sk.push('#'); nums.push(raw); }
+      else sk.push(t.type.label + ':' + raw);
+    }
+  } catch (e) { return {err: true, sk: [], nums: []}; }
+  return {err: false, sk, nums: nums.map(bytes)};
+}
 
 function project(src) {
   const feats = new Set(), ids = new Set(), decls = new Set(), nums = [];
@@ -125,6 +139,12 @@ for (const line of fs.readFileSync(process.argv[2], 'utf8').split('\n')) {
     e.tierr = a.err; e.toerr = b.err;
     e.fi = a.feats; e.fo = b.feats; e.idi = a.ids; e.ido = b.ids; e.dci = a.decls; e.dco = b.decls;
     e.ni = a.nums; e.no = b.nums; e.pvi = a.pv; e.pvo = b.pv;
+    e.sk = []; e.sk0 = []; e.no0 = []; e.nos = [];
+    if (e.out0) {
+      const x = skeleton(e.out), y = skeleton(e.out0);
+      e.toerr = e.toerr || x.err || y.err;
+      e.sk = x.sk; e.sk0 = y.sk; e.nos = x.nums; e.no0 = y.nums;
+    }
   }
   fs.writeSync(out, JSON.stringify(e) + '\n');
 }
